@@ -4,4 +4,10 @@ go 1.24
 
 require github.com/ja7ad/otp v0.0.0
 
+require (
+	golang.org/x/mod v0.22.0 // indirect
+	golang.org/x/sync v0.10.0 // indirect
+	golang.org/x/tools v0.29.0
+)
+
 replace github.com/ja7ad/otp => /repo
